@@ -635,7 +635,7 @@ class C14Lane(Lane):
     }
 
     def subs(self, tier):
-        return [("files", 2000), ("mixed", 500)] if tier == "quick" else [("files", 60000), ("mixed", 12000)]
+        return [("files", 2000), ("mixed", 500)] if tier == "quick" else [("files", 240000), ("mixed", 48000)]
 
     def gen(self, seed, run, sub, tier):
         return gen(seed, run, sub, tier)
